@@ -2684,6 +2684,12 @@ func (h *RequestHeader) AppendBytes(dst []byte) []byte {
 }
 
 func appendHeaderLine(dst, key, value []byte) []byte {
+	// The first ':' of a field line ends the field name, so a name containing
+	// ':' can't be represented on the wire: the peer would see a field that was
+	// never set (its name cut at the colon). Such a field is not written.
+	if bytes.IndexByte(key, ':') >= 0 {
+		return dst
+	}
 	dst = append(dst, key...)
 	dst = append(dst, strColonSpace...)
 	dst = append(dst, value...)
